@@ -716,3 +716,43 @@ func specRLClientOK(c RateLimitedClient) bool {
 //@ assigns none
 //@ end
 
+
+// UnmarshalEncapKey accepts exactly: key_id, a known KEM id, a valid public key of that KEM's size, and KDF /
+// AEAD ids that form a known suite with it; trailing bytes are ignored. The decoded key re-encodes to the
+// bytes that were consumed (C04).
+//
+//@ func UnmarshalEncapKey(data []byte) (k EncapKey, err error)
+//@ props C03 C04 C16
+//@ let kem = hpke.KEMID(uint16(data[1])*256 + uint16(data[2]))
+//@ let npk = KEMNpk(hpke.KEMID(uint16(data[1])*256 + uint16(data[2])))
+//@ let kdf = hpke.KDFID(uint16(data[3+npk])*256 + uint16(data[4+npk]))
+//@ let aead = hpke.AEADID(uint16(data[5+npk])*256 + uint16(data[6+npk]))
+//@ ensures err == nil ==> len(data) >= 7+npk && HPKESuiteKnown(kem, kdf, aead) && KEMPubValid(kem, string(data[3:3+npk]))
+//@ ensures err == nil ==> k.id == data[0] && specSuiteOK(k.suite) && k.publicKey != nil && KEMIdOf(k.suite.KEM) == kem && KDFIdOf(k.suite.KDF) == kdf && AEADIdOf(k.suite.AEAD) == aead
+//@ ensures err == nil ==> KEMPubEnc(k.publicKey) == string(data[3:3+npk])
+//@ ensures[C04] err == nil ==> specEncapKeyEnc(k.id, k.suite, k.publicKey) == string(data[:7+npk])
+//@ ensures[C04] len(data) >= 7+npk && HPKESuiteKnown(kem, hpke.KDF_HKDF_SHA256, hpke.AEAD_AESGCM128) && HPKESuiteKnown(kem, kdf, aead) && KEMPubValid(kem, string(data[3:3+npk])) ==> err == nil
+//@ assigns none
+//@ alloc 16*len(data) + 8192
+//@ end
+
+// C04: decoding the encoding of an encapsulation key returns it (given that its suite is one the library
+// knows and its public key is valid for the KEM, as for every key the library produces).
+//
+//@ lemma props C04
+func lemmaEncapKeyRoundTrip(k EncapKey) {
+	Vassume(specSuiteOK(k.suite) && k.publicKey != nil)
+	Vassume(HPKESuiteKnown(KEMIdOf(k.suite.KEM), KDFIdOf(k.suite.KDF), AEADIdOf(k.suite.AEAD)))
+	Vassume(HPKESuiteKnown(KEMIdOf(k.suite.KEM), hpke.KDF_HKDF_SHA256, hpke.AEAD_AESGCM128))
+	Vassume(KEMPubValid(KEMIdOf(k.suite.KEM), KEMPubEnc(k.publicKey)))
+	enc := k.Marshal()
+	npk := KEMNpk(KEMIdOf(k.suite.KEM))
+	Vassert(len(KEMPubEnc(k.publicKey)) == npk && len(enc) == 7+npk)
+	Vassert(uint16(enc[1])*256+uint16(enc[2]) == uint16(KEMIdOf(k.suite.KEM)))
+	Vassert(string(enc[3:3+npk]) == KEMPubEnc(k.publicKey))
+	Vassert(uint16(enc[3+npk])*256+uint16(enc[4+npk]) == uint16(KDFIdOf(k.suite.KDF)) && uint16(enc[5+npk])*256+uint16(enc[6+npk]) == uint16(AEADIdOf(k.suite.AEAD)))
+	d, err := UnmarshalEncapKey(enc)
+	Vassert(err == nil)
+	Vassert(d.id == k.id && KEMIdOf(d.suite.KEM) == KEMIdOf(k.suite.KEM) && KDFIdOf(d.suite.KDF) == KDFIdOf(k.suite.KDF) && AEADIdOf(d.suite.AEAD) == AEADIdOf(k.suite.AEAD))
+	Vassert(KEMPubEnc(d.publicKey) == KEMPubEnc(k.publicKey))
+}
